@@ -15,6 +15,7 @@ Proof.
 Qed.
 
 Section Facts.
+  Set Default Proof Using "All".
   Variable C : Type.
   Variable ceqb : C -> C -> bool.
   Hypothesis ceqb_spec : forall x y, ceqb x y = true <-> x = y.
